@@ -9,6 +9,7 @@ Usage: genzoo.py curated            (writes harness/src/zoo_gen.rs from the cura
        genzoo.py random SEED N      (adds N generated types / families from SEED)
 """
 import os
+import re
 import sys, os, random
 
 U32MAX = 4294967295
@@ -70,6 +71,8 @@ class E:
         self.is_enum = True
 
 
+CONVERT_NAMES = set()
+
 CONVS = {
     0: None,  # From
     1: ("conv_u32_to_string", "u32", "String", "x.to_string()"),
@@ -129,6 +132,7 @@ class Gen:
         self.out = []
         self.reg = []
         self.pairs = []
+        self.plugin_pairs = []
         self.helper_fns = set()
 
     def w(self, s=""):
@@ -357,6 +361,13 @@ class Gen:
         self.w()
 
     def register(self, rust_path, def_name, t, family=None):
+        # `convert`: some field is read through `savefile_versions_as` at older versions. Such a type cannot be
+        # *written* at those versions in the old shape (the attribute only affects reading), so "the schema of
+        # version v describes what is written at version v" is claimed for it at its current version only.
+        fields = [f for v in t.variants for f in v.fields] if t.is_enum else list(t.fields)
+        if any(f.as_ for f in fields) or any(re.search(r"\b%s\b" % n, f.rust_ty()) for f in fields for n in CONVERT_NAMES):
+            CONVERT_NAMES.add(t.name) if not family else None
+            t.tags = tuple(t.tags) + ("convert",)
         tags = "&[%s]" % ", ".join('"%s"' % x for x in t.tags)
         vers = "&[%s]" % ", ".join(str(v) for v in t.versions)
         fam = 'Some(("%s", %d))' % family if family else "None"
@@ -407,6 +418,10 @@ class Gen:
         tail += ["    v", "}"]
         tail += ["", "pub fn abi_pairs() -> Vec<AbiPair> {", "    let mut v: Vec<AbiPair> = Vec::new();"]
         tail += self.pairs
+        tail += ["    v", "}"]
+        tail += ["", "/// the pairs of `abi_pairs` with the implementation loaded from plugins/v<j> (a cdylib)",
+                 "pub fn plugin_pairs() -> Vec<AbiPair> {", "    let mut v: Vec<AbiPair> = Vec::new();"]
+        tail += self.plugin_pairs
         tail += ["    v", "}"]
         return "\n".join(head + self.out + tail) + "\n"
 
@@ -545,6 +560,10 @@ def curated():
     T.append(S("AbiRem1", [F("a", "u16"), F("old", "u16", ver=(0, 0), removed="AbiRemoved"), F("b", "u32", ver=(1, None))], versions=(0, 1), repr="C", containers=("vec", "arr")))
     T.append(S("As1", [F("a", "u8"), F("b", "u32", ver=(1, None), as_=[(0, 0, "u16", 0)])], versions=(0, 1), containers=("vec",)))
     T.append(S("As2", [F("s", "String", ver=(2, None), as_=[(0, 1, "u32", 1)]), F("t", "u32", ver=(1, None), as_=[(0, 0, "u16", 2)])], versions=(0, 1, 2), containers=("vec",)))
+    # a field that was added at version 1 and converted later: its `versions_as` ranges do not start at 0
+    T.append(S("AsLate", [F("a", "u8"), F("g", "u32", ver=(2, None), as_=[(1, 1, "u16", 0)]), F("z", "u16")], versions=(0, 1, 2), containers=("vec",)))
+    T.append(S("AsLate2", [F("s", "String", ver=(3, None), as_=[(1, 1, "u16", 3), (2, 2, "u32", 1)]), F("t", "u32", ver=(2, None), as_=[(1, 1, "u16", 2)], default_val="5")],
+               versions=(0, 1, 2, 3), containers=("vec", "opt")))
     T.append(E("VerEnum", [Vr("A"), Vr("B", [F("x0", "u32")]), Vr("C", [F("x0", "u8")], ver=(1, None))], versions=(0, 1), containers=("vec",)))
     T.append(E("VerEnumFields", [Vr("A", [F("x", "u8"), F("y", "u16", ver=(1, None), default_val="9")], kind="named"), Vr("B")], versions=(0, 1), containers=("vec",)))
     T.append(S("NestedVer", [F("v", "Ver1"), F("w", "Vec<Ver2>"), F("x", "u8", ver=(1, None))], versions=(0, 1, 2), containers=("vec",)))
@@ -593,6 +612,12 @@ def families():
         [S("T", [F("a", "u32", ver=(1, None), as_=[(0, 0, "u16", 0)]), F("b", "u8")])],
         [S("T", [F("a", "String", ver=(2, None), as_=[(0, 0, "u16", 3), (1, 1, "u32", 1)]), F("b", "u8")])],
     ]))
+    fams.append(("FamConvertLate", [
+        [S("T", [F("b", "u8")])],
+        [S("T", [F("a", "u16", ver=(1, None)), F("b", "u8")])],
+        [S("T", [F("a", "u32", ver=(2, None), as_=[(1, 1, "u16", 0)]), F("b", "u8")])],
+        [S("T", [F("a", "String", ver=(3, None), as_=[(1, 1, "u16", 3), (2, 2, "u32", 1)]), F("b", "u8")])],
+    ]))
     fams.append(("FamVariant", [
         [E("T", [Vr("A"), Vr("B", [F("x0", "u32")])])],
         [E("T", [Vr("A"), Vr("B", [F("x0", "u32")]), Vr("C", [F("x0", "String")], ver=(1, None))])],
@@ -613,11 +638,205 @@ def families():
     return fams
 
 
+def random_types(seed, n):
+    """`n` random derived types (thorough tier): random field types, representations, version attributes"""
+    rnd = random.Random(seed)
+    PRIMS = ["u8", "i8", "u16", "i16", "u32", "i32", "u64", "i64", "u128", "f32", "bool", "char", "usize"]
+    # (no Result, no Box: their recorded findings D16 / D24 would resurface under every containing type's name)
+    LEAF = PRIMS + ["String", "Vec<u8>", "Vec<u32>", "Option<u16>", "[u8; 3]", "[u32; 2]", "(u8, u32)",
+                    "std::collections::BTreeMap<u8, u16>", "Vec<String>", "Option<String>", "Vec<(u8, u16)>"]
+    made = []
+    out = []
+
+    def dval(ty):
+        if ty in ("bool",):
+            return rnd.choice(["true", "false"])
+        if ty == "char":
+            return "x"
+        if ty.startswith("f"):
+            return "1.5"
+        return str(rnd.randrange(0, 120))
+
+    def versioned_field(name, latest, allow_closed_plain):
+        ty = rnd.choice(PRIMS)
+        kinds = ["added", "added", "removed", "abiremoved"]
+        if latest >= 2:
+            kinds += ["twosided_rem", "twosided_abi"]
+        if allow_closed_plain:
+            kinds += ["closed_plain"] + (["twosided_plain"] if latest >= 2 else [])
+        k = rnd.choice(kinds)
+        if k == "added":
+            f = F(name, ty, ver=(rnd.randrange(1, latest + 1), None))
+            if rnd.random() < 0.5:
+                f.default_val = dval(ty)
+            return f, False
+        if k == "removed":
+            return F(name, ty, ver=(0, rnd.randrange(0, latest)), removed="Removed"), False
+        if k == "abiremoved":
+            return F(name, ty, ver=(0, rnd.randrange(0, latest)), removed="AbiRemoved"), False
+        if k in ("twosided_rem", "twosided_abi"):
+            lo = rnd.randrange(1, latest)
+            hi = rnd.randrange(lo, latest)
+            return F(name, ty, ver=(lo, hi), removed="Removed" if k == "twosided_rem" else "AbiRemoved"), False
+        if k == "closed_plain":
+            return F(name, ty, ver=(0, rnd.randrange(0, latest))), True
+        lo = rnd.randrange(1, latest)
+        return F(name, ty, ver=(lo, rnd.randrange(lo, latest))), True
+
+    def plain_type():
+        if made and rnd.random() < 0.25:
+            return rnd.choice(made)
+        return rnd.choice(LEAF)
+
+    for k in range(n):
+        name = "Rnd%d_%d" % (seed % 100000, k)
+        latest = rnd.choice([0, 0, 1, 2, 3])
+        lossy = False
+        conts = tuple(c for c in ("vec", "opt", "arr", "boxs") if rnd.random() < 0.4)
+        if rnd.random() < 0.6:
+            nf = rnd.randrange(1, 6)
+            fields = []
+            for i in range(nf):
+                if latest > 0 and rnd.random() < 0.45:
+                    f, l = versioned_field("f%d" % i, latest, True)
+                    lossy = lossy or l
+                elif rnd.random() < 0.08:
+                    ty = rnd.choice(PRIMS)
+                    f = F("f%d" % i, ty, ignore=True)
+                    if rnd.random() < 0.5:
+                        f.default_val = dval(ty)
+                    lossy = True
+                else:
+                    f = F("f%d" % i, plain_type())
+                fields.append(f)
+            rep = rnd.choice([None, None, "C", "C"])
+            if nf == 1 and latest == 0 and rnd.random() < 0.2:
+                rep = "transparent"
+            kind = "named" if rnd.random() < 0.8 else "tuple"
+            if kind == "tuple":
+                for i, f in enumerate(fields):
+                    f.name = str(i)
+            t = S(name, fields, repr=rep, kind=kind, versions=tuple(range(latest + 1)), tags=("ignore", "random") if lossy else ("random",), containers=conts)
+        else:
+            nv = rnd.randrange(1, 6)
+            rep = rnd.choice([None, None, "u8", "u16", "u32", "C", "u8, C"])
+            variants = []
+            all_unit = True
+            for v in range(nv):
+                vk = rnd.choice(["unit", "tuple", "named"])
+                vfields = []
+                if vk != "unit":
+                    all_unit = False
+                    for i in range(rnd.randrange(1, 4)):
+                        if latest > 0 and rnd.random() < 0.3:
+                            f, l = versioned_field(("x%d" % i) if vk == "tuple" else ("g%d" % i), latest, False)
+                            if f.removed and rnd.random() < 0.5:
+                                # removed fields in enum variants are rarer in practice; keep some
+                                pass
+                        else:
+                            f = F(("x%d" % i) if vk == "tuple" else ("g%d" % i), plain_type())
+                        vfields.append(f)
+                vver = None
+                if latest > 0 and v > 0 and rnd.random() < 0.3:
+                    vver = (rnd.randrange(1, latest + 1), None)
+                variants.append(Vr("V%d" % v, vfields, kind=(vk if vfields else None), ver=vver))
+            # versions of variants must not decrease the index order of presence: later variants may be newer
+            lo_seen = 0
+            for vr in variants:
+                if vr.ver is not None:
+                    lo_seen = max(lo_seen, vr.ver[0])
+                    vr.ver = (lo_seen, None)
+                elif lo_seen > 0:
+                    vr.ver = (lo_seen, None)
+            # an integer-repr enum mixing unit and field variants is the recorded finding D2 under a new name:
+            # keep the shape out of the random zoo (drop the repr, or give every unit variant one field)
+            has_unit = any(not vr.fields for vr in variants)
+            if rep in ("u8", "u16", "u32", "u8, C") and has_unit and not all_unit:
+                if rnd.random() < 0.5:
+                    rep = None
+                else:
+                    for vr in variants:
+                        if not vr.fields:
+                            vr.fields = [F("x0", rnd.choice(["u8", "i8"]))]
+                            vr.kind = "tuple"
+            if all_unit and rep == "u8, C":
+                rep = "u8"      # repr(u8, C) on a fieldless enum is rejected by rustc
+            if all_unit and rnd.random() < 0.3:
+                d = rnd.randrange(0, 5)
+                for vr in variants:
+                    vr.discr = d
+                    d += rnd.randrange(1, 4)
+                tags = ("explicit-discr", "random")
+            else:
+                tags = ("random",)
+            t = E(name, variants, repr=rep, versions=tuple(range(latest + 1)), tags=tags, containers=conts)
+        out.append(t)
+        if latest == 0 and not lossy:
+            made.append(name)
+    return out
+
+
+PLUGIN_TOML = """[package]
+name = "sfv-plugin-v%d"
+version = "0.1.0"
+edition = "2021"
+
+[lib]
+crate-type = ["cdylib"]
+
+[dependencies]
+savefile = { path = "/repo/savefile" }
+savefile-derive = { path = "/repo/savefile-derive" }
+savefile-abi = { path = "/repo/savefile-abi" }
+sfv-harness = { path = "../.." }
+"""
+
+
+def write_if_changed(path, text):
+    old = open(path).read() if os.path.exists(path) else None
+    if old != text:
+        os.makedirs(os.path.dirname(path), exist_ok=True)
+        with open(path, "w") as f:
+            f.write(text)
+
+
+def write_plugins(plugins):
+    """one cdylib per version index: the implementations of every family interface at that version,
+    exported with `savefile_abi_export!` (the implementing type has to be local to the exporting crate)"""
+    root = os.path.join(HERE, "..", "harness", "plugins")
+    for k, fams in sorted(plugins.items()):
+        src = ["//! generated by tools/genzoo.py: implementations of the family interfaces at version %d, as a shared library" % k,
+               "#![allow(non_snake_case, non_camel_case_types, unused_imports)]",
+               "use savefile_derive::savefile_abi_export;", ""]
+        for fam in fams:
+            m = "sfv_harness::zoo_gen::%s_v%d" % (fam, k)
+            src += ["#[derive(Default)]", "pub struct P%s(%s::Impl);" % (fam, m),
+                    "use %s::I%s;" % (m, fam),
+                    "impl I%s for P%s {" % (fam, fam),
+                    "    fn echo(&self, a: %s::T, b: &%s::T, seed: u64) -> %s::T { self.0.echo(a, b, seed) }" % (m, m, m),
+                    "    fn twice(&self, a: &%s::T, b: %s::T) -> (%s::T, %s::T) { self.0.twice(a, b) }" % (m, m, m, m),
+                    "    fn with_cb(&self, a: %s::T, cb: &dyn Fn(%s::T) -> %s::T) -> %s::T { self.0.with_cb(a, cb) }" % (m, m, m, m)]
+            if k >= 1:
+                src += ["    fn added_v1(&self, x: u32) -> u32 { self.0.added_v1(x) }"]
+            src += ["}", "savefile_abi_export!(P%s, I%s);" % (fam, fam), ""]
+        src += ["/// what the implementation observed during the last call on this thread (the library has its own copy of the harness statics)",
+                "#[no_mangle]",
+                "pub extern \"C\" fn sfv_take_observed(buf: *mut u8, cap: usize) -> usize {",
+                "    sfv_harness::abicall::export_observed(buf, cap)",
+                "}", ""]
+        write_if_changed(os.path.join(root, "v%d" % k, "src", "lib.rs"), "\n".join(src))
+        write_if_changed(os.path.join(root, "v%d" % k, "Cargo.toml"), PLUGIN_TOML % k)
+
+
 def main():
     g = Gen()
-    for t in curated():
+    extra = []
+    if len(sys.argv) >= 4 and sys.argv[2] == "random":
+        extra = random_types(int(sys.argv[3]), int(sys.argv[4]) if len(sys.argv) > 4 else 40)
+    for t in curated() + extra:
         g.emit_item(t)
         g.register(t.name, t.name, t)
+    plugins = {}   # version index -> families with an interface at that version
     downgradable = {"FamAdd", "FamAbiRemove", "FamNested", "FamAddPacked", "FamAbiNested"}
     for fam, versions in families():
         nver = len(versions)
@@ -636,14 +855,16 @@ def main():
             if fam in downgradable:
                 # the same interface at this version of the family, and an implementation that reports what it saw
                 g.w("#[savefile_abi_exportable(version = %d)]" % k)
-                g.w("pub trait Iface {")
+                g.w("pub trait I%s {" % fam)
                 g.w("    fn echo(&self, a: T, b: &T, seed: u64) -> T;")
                 g.w("    fn twice(&self, a: &T, b: T) -> (T, T);")
+                g.w("    fn with_cb(&self, a: T, cb: &dyn Fn(T) -> T) -> T;")
                 if k >= 1:
                     g.w("    fn added_v1(&self, x: u32) -> u32;")
                 g.w("}")
+                g.w("#[derive(Default)]")
                 g.w("pub struct Impl;")
-                g.w("impl Iface for Impl {")
+                g.w("impl I%s for Impl {" % fam)
                 g.w("    fn echo(&self, a: T, b: &T, seed: u64) -> T {")
                 g.w("        let mut r = Rng::new(seed);")
                 g.w("        let ret = T::gen(&mut r, 6);")
@@ -657,22 +878,40 @@ def main():
                 g.w("        crate::abicall::observe(vec![a.sx(true), b.sx(true)], vec![r1.sx(false), r2.sx(false)]);")
                 g.w("        (r1, r2)")
                 g.w("    }")
+                # values travel in both directions through a closure: the closure's argument is made here, its
+                # return value by the caller
+                g.w("    fn with_cb(&self, a: T, cb: &dyn Fn(T) -> T) -> T {")
+                g.w("        let mut r = Rng::new(11);")
+                g.w("        let x = T::gen(&mut r, 5);")
+                g.w("        let ret = T::gen(&mut r, 7);")
+                g.w("        let x_sx = x.sx(false);")
+                g.w("        let y = cb(x);")
+                g.w("        crate::abicall::observe(vec![a.sx(true), y.sx(true)], vec![x_sx, ret.sx(false)]);")
+                g.w("        ret")
+                g.w("    }")
                 if k >= 1:
                     g.w("    fn added_v1(&self, x: u32) -> u32 { x.wrapping_add(1) }")
                 g.w("}")
-                for i in range(nver):
-                    pass
+                plugins.setdefault(k, []).append(fam)
             g.w("}")
         if fam in downgradable:
             for i in range(nver):
                 for j in range(nver):
                     mi, mj = "%s_v%d" % (fam, i), "%s_v%d" % (fam, j)
+                    iface = "I" + fam
+                    added = ("Some(|c, x| %s::%s::added_v1(c, x))" % (mi, iface)) if i >= 1 else "None"
                     g.pairs.append(
-                        '    v.push(AbiPair { fam: "%s", i: %d, j: %d, run: |r| crate::abicall::run_pair::<dyn %s::Iface, %s::T, %s::T>("%s", %d, %d, '
-                        '|| unsafe { savefile_abi::AbiConnection::<dyn %s::Iface>::from_boxed_trait_for_test(<dyn %s::Iface as savefile_abi::AbiExportable>::ABI_ENTRY, Box::new(%s::Impl) as Box<dyn %s::Iface>) }, '
-                        '|c, a, b, s| %s::Iface::echo(c, a, b, s), |c, a, b| %s::Iface::twice(c, a, b), %s, r) });'
-                        % (fam, i, j, mi, mi, mj, fam, i, j, mi, mj, mj, mj, mi, mi,
-                           ("Some(|c, x| %s::Iface::added_v1(c, x))" % mi) if i >= 1 else "None"))
+                        '    v.push(AbiPair { fam: "%s", i: %d, j: %d, run: |r| crate::abicall::run_pair::<dyn %s::%s, %s::T, %s::T>("%s", %d, %d, '
+                        '|| unsafe { savefile_abi::AbiConnection::<dyn %s::%s>::from_boxed_trait_for_test(<dyn %s::%s as savefile_abi::AbiExportable>::ABI_ENTRY, Box::new(%s::Impl) as Box<dyn %s::%s>) }, '
+                        '|c, a, b, s| %s::%s::echo(c, a, b, s), |c, a, b| %s::%s::twice(c, a, b), |c, a, cb| %s::%s::with_cb(c, a, cb), %s, r) });'
+                        % (fam, i, j, mi, iface, mi, mj, fam, i, j, mi, iface, mj, iface, mj, mj, iface, mi, iface, mi, iface, mi, iface, added))
+                    # the same pair with the implementation in a separately linked shared library
+                    g.plugin_pairs.append(
+                        '    v.push(AbiPair { fam: "%s", i: %d, j: %d, run: |r| crate::abicall::run_pair::<dyn %s::%s, %s::T, %s::T>("%s", %d, %d, '
+                        '|| savefile_abi::AbiConnection::<dyn %s::%s>::load_shared_library(&crate::abicall::plugin_path(%d)), '
+                        '|c, a, b, s| %s::%s::echo(c, a, b, s), |c, a, b| %s::%s::twice(c, a, b), |c, a, cb| %s::%s::with_cb(c, a, cb), %s, r) });'
+                        % (fam, i, j, mi, iface, mi, mj, fam, i, j, mi, iface, j, mi, iface, mi, iface, mi, iface, added))
+    write_plugins(plugins)
     src = g.finish(lib_entries())
     old = open(OUT).read() if os.path.exists(OUT) else None
     if old != src:
